@@ -20,12 +20,12 @@ func init() {
 		ID:    "C14",
 		Level: "exploration",
 		Race:  false,
-		Rule: "cycles case = (host: provider | long-lived scope | long-lived nested scope) x (caller context: Background | nil | one long-lived never-cancelled cancellable | non-std context type | fresh cancellable per cycle) x (scope-tree shape as parent vector, per-child context kind) x (close mode: leaf-first | root-only with open children | creation-order incl. repeated Close | random order | cancel caller context | cancel+Close | left open until provider.Close | closed with handles held) x initializer set x resolution mask, run for N and 2N cycles (quick N=200/400, thorough N=5000/10000; the left-open mode is capped at N=2000, 1000 for trees of more than 4 scopes, because every open scope owns a goroutine); " +
+		Rule: "cycles case = (host: provider | long-lived scope | long-lived nested scope) x (caller context: Background | nil | one long-lived never-cancelled cancellable | non-std context type | fresh cancellable per cycle) x (scope-tree shape as parent vector, per-child context kind) x (close mode: leaf-first | root-only with open children | creation-order incl. repeated Close | random order | cancel caller context | cancel+Close | left open until provider.Close | closed with handles held) x initializer set x resolution mask x (no Close() errors | every disposable of every 3rd cycle fails to Close | every SB instance fails to Close | only instances of child scopes fail to Close; the DisposalError returned by Close is ignored), run for N and 2N cycles (quick N=200/400, thorough N=5000/10000; the left-open mode is capped at N=2000, 1000 for trees of more than 4 scopes, because every open scope owns a goroutine); " +
 			"fault case = (Build | provider.CreateScope | scope.CreateScope on child | on grandchild) x caller context x initializer order x failing position 1..m x (error | panic | dependency constructor error | dependency constructor panic) x 1 or several consecutive failing creations, embedded between fault-free cycles. " +
 			"Non-trivial: at least one scope was created and then closed, or at least one creation failed with the planned fault actually fired; distinct = distinct canonical case descriptions.",
 		Shards:        func(tier string) int { return map[string]int{"quick": 8, "thorough": 16}[tier] },
 		Run:           run,
-		NeedEvents:    []string{"scopes_closed", "failed_creations", "weak_checked", "goroutine_checks", "ctx_checked", "captured_ctx_checked"},
+		NeedEvents:    []string{"scopes_closed", "failed_creations", "weak_checked", "goroutine_checks", "ctx_checked", "captured_ctx_checked", "close_errors_returned"},
 		ShardTimeoutS: func(tier string) int { return map[string]int{"quick": 240, "thorough": 1500}[tier] },
 		Assumptions: []string{
 			"runtime.NumGoroutine and runtime.Stack(all) see every goroutine started by godi; a goroutine is attributed to godi by a godi frame (or godi 'created by') in its stack, and to a context godi derived from the caller's non-std context by the context-propagation frame (the harness never derives from that context itself)",
@@ -142,6 +142,40 @@ func cases(c *eng.Ctx) []*Spec {
 		}
 	}
 
+	// close-error workload: some disposable instances return an error from Close(), so the
+	// scope's Close returns a DisposalError (ignored); every release oracle must hold unchanged
+	for _, host := range hosts {
+		for _, m := range modes {
+			for _, variant := range []string{"kth", "kind-SB", "child-only"} {
+				kinds := m.kinds
+				if !c.Thorough() {
+					kinds = []string{m.kinds[rng.Intn(len(m.kinds))]}
+				}
+				for _, kind := range kinds {
+					// nested shapes only: the parent's Close must report (and survive) its child's error
+					shapes := [][]int{fixedShapes[1+rng.Intn(len(fixedShapes)-1)]}
+					if c.Thorough() {
+						shapes = append(shapes, append([]int{-1, 0}, randShape(rng)[2:]...))
+					}
+					for _, sh := range shapes {
+						sp := &Spec{Kind: "cycles", N: n, Host: host, Parent: kind, Shape: sh, ChildCtx: fillChildCtx(rng, sh), Close: m.mode,
+							Inits: randInits(rng, true), Use: randUse(rng) | uSA | uSB | uTA, Seed: rng.Int63(), CloseErr: variant}
+						if host != "provider" && rng.Intn(2) == 0 {
+							sp.HostClose = "explicit"
+						}
+						if m.mode == "provider-close" && sp.N > 2000 {
+							sp.N = 2000
+						}
+						if m.mode == "provider-close" && len(sh) > 4 && c.Thorough() {
+							sp.N = 1000
+						}
+						out = append(out, sp)
+					}
+				}
+			}
+		}
+	}
+
 	// fault enumeration
 	orders := [][]int{{0, 1, 2, 3, 4}, {1, 0, 2, 3, 4}}
 	extra := c.Pick(2, 10)
@@ -213,6 +247,7 @@ func runCase(c *eng.Ctx, idx int, sp *Spec, procBase int) bool {
 	r := e.reg
 	r.mu.Lock()
 	nScopes, nInsts, nCloses, nInits := len(r.scopes), len(r.insts), r.nCloses, len(r.inits)
+	nCloseErrs := r.nCloseErrs
 	nCreated := 0
 	for i := range r.scopes {
 		if !r.scopes[i].failed {
@@ -224,6 +259,10 @@ func runCase(c *eng.Ctx, idx int, sp *Spec, procBase int) bool {
 	c.R.Count("scopes_closed", int64(e.nClosed))
 	c.R.Count("instances_created", int64(nInsts))
 	c.R.Count("close_events", nCloses)
+	c.R.Count("close_errors_returned", nCloseErrs)
+	if sp.CloseErr != "" {
+		c.R.Count("cases_cycles_with_close_errors", 1)
+	}
 	c.R.Count("initializer_invocations", int64(nInits))
 	c.R.Count("cases_"+sp.Kind, 1)
 	if e.getErrs > 0 {
@@ -235,7 +274,7 @@ func runCase(c *eng.Ctx, idx int, sp *Spec, procBase int) bool {
 	}
 	e.flush()
 	if wantSample(c, sp) {
-		c.R.Sample(map[string]any{"case": sp, "checkpoints": stats, "scopes": nScopes, "failed_creations": e.nFailed, "instances": nInsts, "close_events": nCloses})
+		c.R.Sample(map[string]any{"case": sp, "checkpoints": stats, "scopes": nScopes, "failed_creations": e.nFailed, "instances": nInsts, "close_events": nCloses, "close_errors_returned": nCloseErrs})
 	}
 	nontrivial := e.poisoned == "" && (e.nClosed > 0 || e.nFailed > 0)
 	e.cleanup()
@@ -246,10 +285,17 @@ var sampled = map[string]int{}
 
 // wantSample keeps the samples balanced between the two parts (the reporter keeps four).
 func wantSample(c *eng.Ctx, sp *Spec) bool {
-	if !c.R.WantSample() || sampled[sp.Kind] >= 2 {
+	key, max := sp.Kind, 2
+	if sp.Kind == "cycles" {
+		max = 1
+		if sp.CloseErr != "" {
+			key = "cycles/close-err"
+		}
+	}
+	if !c.R.WantSample() || sampled[key] >= max {
 		return false
 	}
-	sampled[sp.Kind]++
+	sampled[key]++
 	return true
 }
 
